@@ -98,7 +98,7 @@ def coupled_updates(ctx, rid, adt, pairs, floor, exempt=None, only_pairs=None):
                         % (short(s.fn), adtn, a, "modified" if ca.kind == "changed" else "new", b, b, why),
                         loc=s.instr.line(), sample=row)
             elif (a, b) in ALWAYS_TOGETHER and ca.kind == "changed" and cb.kind == "changed" and _unconditional(ctx, s, ca) \
-                    and not _unconditional(ctx, s, cb) and not _condition_looks_at_new_tour(ctx, s, cb):
+                    and not _unconditional(ctx, s, cb) and not _condition_looks_at_new_tour(ctx, s, cb, b):
                 w = [x.instr for x in cb.writes if x.instr is not None]
                 ctx.bad(o, "%s rebuilds `%s` on every path to this result but `%s` only under a condition (%s): on the other paths `%s` is stale: %s"
                         % (short(s.fn), a, b, ", ".join(i.line() for i in w[:2]), b, why), loc=w[0].line() if w else s.instr.line(), sample=row)
@@ -113,8 +113,11 @@ ALWAYS_TOGETHER = {("tours", "depot_usage"), ("tours", "next_period_transitions"
 TOUR_GETTERS = ("start_depot", "end_depot", "first_node", "last_node", "costs", "maintenance_counter", "total_distance")
 
 
-def _condition_looks_at_new_tour(ctx, s, c):
+def _condition_looks_at_new_tour(ctx, s, c, what=None):
+    """the extra condition under which `what` is updated compares what the helper maintains: for the depot usage BOTH the start and
+    the end depot of the tour, for the others any figure of the new tour"""
     fd = ctx.an.fd(s.fn)
+    seen_getters = set()
     for w in c.writes:
         if w.instr is None:
             continue
@@ -134,9 +137,10 @@ def _condition_looks_at_new_tour(ctx, s, c):
                 ops = top.args if top.kind == "call" else (top.ops if top.kind == "assign" else [])
                 for op in ops:
                     names += list(direct_chain(fd, op))
-            if any(n == T(g) for g in TOUR_GETTERS for n in names):
-                return True
-    return False
+            seen_getters |= {g for g in TOUR_GETTERS for n in names if n == T(g)}
+    if what == "depot_usage":
+        return bool(seen_getters & {"start_depot", "first_node"}) and bool(seen_getters & {"end_depot", "last_node"})
+    return bool(seen_getters)
 
 
 def _unconditional(ctx, s, c):
